@@ -16,7 +16,9 @@ CLAIMED = {
              "reachable images of small tables, random histories up to 1000 slots); the key's murmur3 hash and MD5 are "
              "parameters of the model (theorems: hash is a function of the canonical key identity, digest has 16 bytes), "
              "computed by an independent Python implementation and compared with what the C code stored; slot.count / "
-             "usedslots / num modelled unbounded (exact while maxslots < 2^15).",
+             "usedslots / num / hash / link / datasize modelled unbounded: exact iff the stored values fit the fields of the current "
+             "header (theorem widths_suffice: for maxslots < 2^31 iff no home carries more than 32767 keys; always for "
+             "maxslots <= 32767); key length < 2^16 is the width of pair.namesize, which the model stores itself.",
         technique="Lean 4 proof (structural invariant + key correspondence + lock-step refinement by induction over "
                   "operation lists) + K-gen layout + differential correspondence with an ideal-map oracle",
         design="7/C06"),
@@ -41,7 +43,11 @@ CLAIMED = {
              "documented-invalid call is the identity on the image (inv_identity); systematic glue streams: every key length "
              "1..40, 65534, 65535 through put/get/remove, the string family and putstr/getstr (65536 and above: "
              "correspondence only), qhasharr() on every region size 0..265 bytes guarded and exactly sized, "
-             "qhasharr_calculate_memsize, 31 invalid calls per `inv` operation.",
+             "qhasharr_calculate_memsize, 31 invalid calls per `inv` operation; field widths: widths_suffice / widths_necessary / widths_reachable "
+             "(Fits cWidths over the regenerated sizeof constants), streams one-home:127-128-129 / one-home:200 (slot.count), "
+             "zero-byte-keys (names handed out by getnext compared over the reported namesize, block size tested through the "
+             "ASan interface), thorough: huge:cap70000 / huge:cap140000 (home slots and extension slots beyond 2^15 and 2^16, "
+             "implementation against the oracle).",
         technique="Lean 4 proof (local slot invariants + ghost ranks, preservation lemma per image transformation, induction "
                   "over operation lists) + K-gen layout + differential correspondence with an independent Python "
                   "well-formedness checker",
